@@ -365,6 +365,30 @@ def in_place_models(ctx, tmp):
                 ctx.fail("the columns read from the table were not its columns: Total is %r, the table held A = %r, B = %r" % (total, A, B), desc)
 
 
+def template_headers(ctx, tmp):
+    """column names that look like templates to a formatter - braces, percent signs, backslashes, dollar signs: a column is found under such a name, its
+    values are returned, and a non-numeric or empty cell in it (first row, last row) is reported as the invalid-data error with its file line and the name"""
+    names = ["NDVI{2019}", "{}", "{0}", "set{a,b}", "open{", "a}b", "pct%", "%s", "%(x)s", "100%d", "C:\\dir\\col", "$total", "{{x}}", "a{b}c{d}", "{!r}", "{:>8}"]
+    for name in names:
+        for bad_row, bad in ((None, None), (0, "x"), (2, ""), (2, "n/a")):
+            cells = ["1.5", "2.5", "3.5"]
+            if bad_row is not None:
+                cells[bad_row] = bad
+            text = _table(["id", name, "other{}"], [[str(i), c, "7"] for i, c in enumerate(cells)])
+            path = os.path.join(tmp, "tmpl.csv")
+            write_file(path, text)
+            out = read_impl(path, name, None, None)
+            ctx.case("template header %r %r" % (name, bad_row), sample=None)
+            ctx.count("template_header_reads")
+            desc = {"file_text": text, "InFieldName": name}
+            if bad_row is None:
+                if out[0] != "ok" or numpy.ma.getdata(out[1]).tolist() != [1.5, 2.5, 3.5]:
+                    ctx.fail("the column named %r holds 1.5, 2.5, 3.5; EEMSRead returns %s" % (name, out[1] if out[0] != "ok" else out[1].tolist()), desc)
+            elif not (out[0] == "mp" and out[1] == "InvalidDataFile" and ("line %d." % (bad_row + 2)) in out[2]):
+                ctx.fail("a non-numeric cell (%r) on file line %d of the column named %r is reported as %s %r - not as the invalid-data error with that line" % (
+                    bad, bad_row + 2, name, out[1], str(out[2])[:160]), desc)
+
+
 def run(ctx):
     ctx.check_proofs(["MPilot.Props.C17", "MPilot.Props.C17Table", "MPilot.Props.Findings"])
     model = common.Model()
@@ -479,6 +503,7 @@ def run(ctx):
     write_checks(ctx, model, tmp)
     reread_after_fault(ctx, tmp)
     text_columns(ctx, tmp)
+    template_headers(ctx, tmp)
     large_tables(ctx, tmp)
     in_place_models(ctx, tmp)
     return ctx.finish(
